@@ -332,6 +332,52 @@ pub fn run(run: &RunInfo) -> Summary {
             acc.count("capped", 1);
         }
     });
+    // the same oracle over call histories instead of fixed scenarios: all histories of depth 3
+    // (thorough 4) over begin / commit / cancel x tokens {A,B} + read_card with one fault (the menu
+    // above) at any packet the terminal sends after Feig::new, the connection log judged as above
+    if !skip_for_replay(run, "c09/histories/") {
+        use crate::hist::*;
+        let f_ops = crate::c07::ops(&["A", "B"]);
+        let depth = if run.thorough() { 4 } else { 3 };
+        let mut work: Vec<(usize, usize)> = vec![];
+        for max in 1..=2usize {
+            for first in 0..f_ops.len() {
+                work.push((max, first));
+            }
+        }
+        let part = par_for(work.len(), |ix, acc| {
+            let (max, first) = work[ix];
+            let p = HistParams {
+                max,
+                depth,
+                ops: f_ops.clone(),
+                dangling: None,
+                reservation_menu: vec![Outcome::Ok, Outcome::Abort(0x6c)],
+                commit_menu: vec![Outcome::Ok],
+                cancel_menu: vec![Outcome::Ok],
+                eod_menu: vec![Eod::Completion, Eod::Abort(0xa0)],
+                noise: false,
+                delay_ms: 0,
+                focus19: false,
+                rearm_dangling: false,
+                faults: true,
+            };
+            dbx::explore(1, 200_000_000, |ctx| {
+                let o = history(ctx, &p, Some(first), acc);
+                acc.count("executions", 1);
+                acc.count("history_executions", 1);
+                if !o.c09.is_empty() {
+                    let choices = ctx.choices();
+                    acc.violation(viol(
+                        format!("c09/histories/max={max}/first={first}/choices={choices:?}"),
+                        format!("transactions_max_num = {max}, call history with one fault\nhistory:\n  {}\nviolations:\n  {}", o.trace.join("\n  "), o.c09.join("\n  ")),
+                        o.trace.len() as u64,
+                    ));
+                }
+            });
+        });
+        acc.merge(part);
+    }
     // two clients in one process: the identity check of each client uses its own configured serial,
     // whatever other clients of the process are configured with or have met
     if !skip_for_replay(run, "c09/two-clients/") {
@@ -472,7 +518,7 @@ pub fn run(run: &RunInfo) -> Summary {
         transitions: acc.get("transitions"),
         traces_validated: execs,
         distinct_nontrivial: acc.set_len("outcomes"),
-        rule: format!("real Feig client against the simulated terminal (paused clock): 2 configurations (usual; no terminal id, other password and currency) x end-of-day completing or answered with the tolerated A0 x 7 scenarios (Feig::new, then read_card / begin / commit idle / cancel idle / commit and cancel with another transaction open / configure, then a further read_card) x every placement of <= {budget} fault(s): at every terminal-to-client packet (handshake included) one of close, close after half a packet, reset, undecodable body, foreign control field, NACK, silence, reply 1 ms after / 1 ms before the time-out, wrong serial, serial differing in case, identity check answered with an abort (four codes here, all 256 codes in a separate sweep); and the peer closing the idle connection before any operation; plus two clients in one process (the first at three stages of progress) x 10 pairs of configured / reported serial number of the second (other, equal, equal up to case, and configured serials that are a proper suffix, prefix or extension of the reported one, or empty). Oracle on the global connection log (and, after every call, that no connection that saw a fault is still held)"),
+        rule: format!("real Feig client against the simulated terminal (paused clock): 2 configurations (usual; no terminal id, other password and currency) x end-of-day completing or answered with the tolerated A0 x 7 scenarios (Feig::new, then read_card / begin / commit idle / cancel idle / commit and cancel with another transaction open / configure, then a further read_card) x every placement of <= {budget} fault(s): at every terminal-to-client packet (handshake included) one of close, close after half a packet, reset, undecodable body, foreign control field, NACK, silence, reply 1 ms after / 1 ms before the time-out, wrong serial, serial differing in case, identity check answered with an abort (four codes here, all 256 codes in a separate sweep); and the peer closing the idle connection before any operation; plus all call histories of depth 3 (thorough 4) over begin / commit / cancel x tokens {{A,B}} + read_card with one such fault at any packet the terminal sends after Feig::new; plus two clients in one process (the first at three stages of progress) x 10 pairs of configured / reported serial number of the second (other, equal, equal up to case, and configured serials that are a proper suffix, prefix or extension of the reported one, or empty). Oracle on the global connection log (and, after every call, that no connection that saw a fault is still held)"),
         exhaustive: true,
         required_witnesses: vec![
             "a fault was followed by a fresh, vetted connection".into(),
